@@ -107,6 +107,12 @@ chk("C02", "enum",
     "Reading D2; hostile alphabet finite; JSON-LD keywords not judged.",
     "DESIGN.md §3 C02")
 
+chk("C05", "enum",
+    "bounded-exhaustive enumeration of documents generated from the vocabulary model by an independent writer (reflection + encoding/json, two shape variants) and of all single mutations of the mock documents; oracle = canon of the generating value / reference decoder over encoding/json; then fixpoint of re-encoding",
+    "Every value of the universe is written as a document in a compact and an expanded admissible shape and decoded by the library; the decoded value must have the named Go type and the expected canonical tree; re-encoding and decoding again must reproduce the value and the bytes. The 18 item mock documents and every single structure-preserving mutation are judged by a reference decoder.",
+    "Writer and reference decoder share the vocabulary model and are cross-validated on every generated document; alphabet finite.",
+    "DESIGN.md §3 C05")
+
 manifest = {
     "version": 1,
     "setup_cmd": "./setup.sh",
